@@ -62,6 +62,8 @@ def parse_line(line):
         if "." in x:
             s, r = x.split(".")
             failed.add((int(s), int(r)))
+        elif x.startswith("d="):
+            failed.add(("diag", int(x[2:])))
     tasks = [x for x in parts[4][2:].split(",") if x]
     return parts[0], calls, jobs, failed, tasks
 
@@ -160,6 +162,10 @@ def oracle(h, threshold):
                     if not ((j and j[0] == ty) or (s, r) in completed):
                         report("C14:admitted-event-lost", f"admitted {ty} event of ref {r}: subscriber {subs[s]['name']} has neither a job nor a completion record (line {h.start + i}: {kind})", i)
         # --- failed events listing is exactly the jobs at/over the threshold (whenever the harness asked)
+        diag = [x[1] for x in failed if x[0] == "diag"]
+        failed = {x for x in failed if x[0] != "diag"}
+        if diag and diag[0] != len(failed):
+            report("C14:diagnostics-failed-events-count", f"the state's diagnostics show failed_events={diag[0]} while GetFailedEvents lists {len(failed)} events {sorted(failed)}", i)
         if kind in ("end", "restart", "reset") and status != "stop":
             want = {k for k, j in jobs.items() if j[1] >= threshold}
             if failed != want:
@@ -374,7 +380,7 @@ def handler_oracle(ctx):
     first = rows["payload-1"]
     ok_first = first["calls"] == ["payload:0"] and first["private"] == 0 and first["vcs"] == 0
     ctx.oblige("oracle:handler:payload-delivered-once-and-private-job-finished", ok_first, str(first))
-    again = [k for k in ("payload-2", "restart", "payload-3") if rows[k]["calls"] != first["calls"]]
+    again = [k for k in ("payload-2", "restart", "payload-3") if rows[k]["calls"] != first["calls"]] if ok_first else []
     ctx.oblige("oracle:handler:no-call-after-completion", not again, f"subscriber called again at {again}: {[rows[k]['calls'] for k in again]}")
     if again:
         wit = os.path.join(ROOT, "harness", "corpus", "C14", "second-writepayload-after-done.jsonl")
